@@ -375,6 +375,17 @@ def check_detmap(case, ctx: Ctx):
                 )
     if not (dm1 == dm2) or dm1.static_hash() != dm2.static_hash():
         ctx.fail(C, "eq_hash_order_dependent", "")
+    # the same map asked again about the same qubit names sitting elsewhere (another register
+    # from the same layout, another mapping): the weight follows the position, not the name
+    names = list(qubits)
+    if len(names) >= 2:
+        rot = {names[i]: qubits[names[(i + 1) % len(names)]] for i in range(len(names))}
+        got_r = ctx.must(lambda: dm1.get_qubit_weight_map(rot), C, "get_qubit_weight_map(second register)")
+        for i, q in enumerate(names):
+            e = expected[names[(i + 1) % len(names)]]
+            if abs(got_r[q] - e) > 1e-12:
+                ctx.fail(C, "weight:same_names_other_positions",
+                         f"second query: qubit {q} now at {rot[q].tolist()} got weight {got_r[q]}, trap weight is {e}")
     # sorted_weights follow the canonical trap order
     exp = oracle_sorted(pts)
     order = [
